@@ -76,7 +76,10 @@ def main():
         "not_applicable": na,
         "notes": "All claims are clause-level (category 'other'): each check decides the structural clauses named in its "
                  "text from /repo's current source on every run and never imports or runs mashumaro. Value-level parts "
-                 "of the properties are listed as not decided in each level_note and in DESIGN.md.",
+                 "of the properties are listed as not decided in each level_note and in DESIGN.md. The thorough tier runs the same rules over a larger type catalogue (415 entries) "
+                 "and appends a sensitivity audit: the property's confirmed seeded changes (/verif/seeded) are applied one at a time to scratch copies outside /repo and /verif, "
+                 "the quick check is run on each, and the outcome is recorded in the evidence (informational; it never changes the verdict on the real tree). "
+                 "DESIGN.md sections 7, 8 and 12 record the repairs, the known findings, the seeded-change evaluation and the layout as built.",
     }
     with open(os.path.join(HERE, "MANIFEST.json"), "w") as fh:
         json.dump(man, fh, indent=1)
